@@ -4,6 +4,8 @@ import (
 	"crypto/tls"
 	"fmt"
 	"net"
+	"os"
+	"path/filepath"
 	"strings"
 	"sync/atomic"
 	"testing"
@@ -235,10 +237,13 @@ func evalC09(c c09Case) *Failure {
 		// complete: the client does everything a client with this credential can do
 		defer raw.Close()
 		var conn net.Conn
+		var cfg *tls.Config
 		if c.Cred == "plaintext" {
 			conn = raw
 		} else {
-			tc := tls.Client(raw, c09ClientConfig(p, c.Cred))
+			cfg = c09ClientConfig(p, c.Cred)
+			cfg.ClientSessionCache = tls.NewLRUClientSessionCache(4) // a client library that resumes sessions
+			tc := tls.Client(raw, cfg)
 			tc.SetDeadline(time.Now().Add(5 * time.Second))
 			tc.Handshake() // with TLS 1.3 a rejected certificate shows only on the first read
 			conn = tc
@@ -280,6 +285,28 @@ func evalC09(c c09Case) *Failure {
 			if ne, ok := err.(net.Error); err == nil || (ok && ne.Timeout()) {
 				return failf("c09|rejected-client-not-disconnected|"+c.Cred, "%s: %s: the rejected client was not disconnected (%v)", what, when, err)
 			}
+			if cfg != nil {
+				// the rejected client comes back, resuming whatever TLS session its first visit has left it with
+				raw2, err := net.DialTimeout("tcp", tlsAddr, 5*time.Second)
+				if err != nil {
+					return failf("c09|tls-listener-down", "%s: %s cannot connect a second time: %v", what, when, err)
+				}
+				defer raw2.Close()
+				tc2 := tls.Client(raw2, cfg)
+				tc2.SetDeadline(time.Now().Add(5 * time.Second))
+				tc2.Handshake()
+				resumed := tc2.ConnectionState().DidResume
+				conn = tc2
+				key2 := uniq("faulty-second-visit")
+				replies = nil
+				if password != "" {
+					send("AUTH", password)
+				}
+				send("GET", key2)
+				if callsFor(key2) > 0 {
+					return failf("c09|executed-for-rejected-client|"+c.Cred+"|second-visit", "%s: %s: on its second visit (session resumed: %v) a command was executed for a client whose credential (%s) must be rejected under config %s (replies %v)", what, when, resumed, c.Cred, c.Config, replies)
+				}
+			}
 		}
 		return nil
 	}
@@ -316,12 +343,160 @@ func evalC09(c c09Case) *Failure {
 	return nil
 }
 
-func init() { register("c09.scenario", evalC09) }
+// ---- child-process tier: broken handshakes of every shape against a server process of its own ----
+
+type c09Junk struct {
+	Hello bool     `json:"hello"` // a well-formed ClientHello goes first
+	Bytes resp.Bin `json:"bytes"` // then these bytes
+}
+
+type c09Child struct {
+	Rule bool      `json:"rule"`
+	Junk []c09Junk `json:"junk"`
+}
+
+// helloThenJunk lets the TLS client send its ClientHello and follows it with junk.
+type helloThenJunk struct {
+	net.Conn
+	junk  []byte
+	wrote bool
+}
+
+func (c *helloThenJunk) Write(b []byte) (int, error) {
+	if c.wrote {
+		return 0, net.ErrClosed
+	}
+	c.wrote = true
+	n, err := c.Conn.Write(b)
+	c.Conn.Write(c.junk)
+	return n, err
+}
+
+func evalC09Child(c c09Child) *Failure {
+	p := sharedPKI()
+	base := os.Getenv("VERIF_PARTS_DIR")
+	if base == "" {
+		base = filepath.Join(verifRoot(), ".build")
+	}
+	dir, err := os.MkdirTemp(base, "pki")
+	if err != nil {
+		return failf("harness|tmp", "%v", err)
+	}
+	defer os.RemoveAll(dir)
+	for name, data := range map[string][]byte{"server.crt": p.Server.CertPEM, "server.key": p.Server.KeyPEM, "ca.crt": p.Root.CertPEM} {
+		if err := os.WriteFile(filepath.Join(dir, name), data, 0o600); err != nil {
+			return failf("harness|tmp", "%v", err)
+		}
+	}
+	rule := ""
+	if c.Rule {
+		rule = c09Rule
+	}
+	cs, err := startChildServerWith(0, dir, rule)
+	if err != nil {
+		return failf("harness|child", "%v", err)
+	}
+	defer cs.stop()
+	tlsAddr := fmt.Sprintf("127.0.0.1:%d", cs.tlsPort)
+	valid := func(when string) *Failure {
+		if !cs.alive() {
+			return failf("c09|process-died", "%s: the server process died: %s", when, firstLines(cs.stderr.String(), 12))
+		}
+		for attempt := 0; ; attempt++ {
+			conn, err := tls.DialWithDialer(&net.Dialer{Timeout: 10 * time.Second}, "tcp", tlsAddr, c09ClientConfig(p, "right"))
+			if err == nil {
+				v, rerr := roundTrip(conn, resp.Cmd("PING").Bytes(), 10*time.Second)
+				conn.Close()
+				if rerr == nil && v.Equal(resp.S("PONG")) {
+					break
+				}
+				err = fmt.Errorf("PING answered %v, %v", v, rerr)
+			}
+			time.Sleep(20 * time.Millisecond)
+			if !cs.alive() {
+				return failf("c09|process-died", "%s: the server process died: %s", when, firstLines(cs.stderr.String(), 12))
+			}
+			if attempt == 1 {
+				return failf("c09|tls-not-serving", "%s: a valid TLS client is not served by the server process: %v", when, err)
+			}
+		}
+		pc, err := cs.dial()
+		if err != nil {
+			return failf("c09|plain-listener-down", "%s: a plain client cannot connect: %v", when, err)
+		}
+		defer pc.Close()
+		if v, err := roundTrip(pc, resp.Cmd("PING").Bytes(), 10*time.Second); err != nil || !v.Equal(resp.S("PONG")) {
+			return failf("c09|plain-not-serving", "%s: PING on the plain port answered %v, %v", when, v, err)
+		}
+		return nil
+	}
+	if f := valid("before any faulty client"); f != nil {
+		if strings.HasPrefix(f.Key, "c09|process-died") {
+			return f
+		}
+		return failf("harness|child-not-serving", "%s", f.Detail)
+	}
+	for i, j := range c.Junk {
+		when := fmt.Sprintf("rule=%v; after faulty client %d (ClientHello first: %v, then %q)", c.Rule, i, j.Hello, clip(j.Bytes))
+		raw, err := net.DialTimeout("tcp", tlsAddr, 5*time.Second)
+		if err != nil {
+			if !cs.alive() {
+				return failf("c09|process-died", "%s: the server process died: %s", when, firstLines(cs.stderr.String(), 12))
+			}
+			return failf("c09|tls-listener-down", "%s: cannot connect: %v", when, err)
+		}
+		if j.Hello {
+			tc := tls.Client(&helloThenJunk{Conn: raw, junk: j.Bytes}, c09ClientConfig(p, "right"))
+			tc.SetDeadline(time.Now().Add(2 * time.Second))
+			tc.Handshake()
+		} else {
+			raw.Write(j.Bytes)
+		}
+		raw.SetReadDeadline(time.Now().Add(2 * time.Second))
+		buf := make([]byte, 512)
+		for {
+			if _, err := raw.Read(buf); err != nil {
+				break
+			}
+		}
+		raw.Close()
+		if f := valid(when); f != nil {
+			return f
+		}
+	}
+	return nil
+}
+
+var c09JunkFixed = []string{"\x16\x03\x01\x00\x05hello-this-is-not-tls\r\n", "\x16\x03\x01\xff\xff", "\x16\x03\x01\xff\xffAAAAAAAAAAAAAAAA", "\x16\x03\x03\x48\x01", "\x80\x2e\x01\x03\x01\x00\x15\x00\x00\x00\x10", "\x80", "\x80\x00",
+	"*1\r\n$4\r\nPING\r\n", "GET / HTTP/1.0\r\n\r\n", "\x15\x03\x03\x00\x02\x02\x28", "\x17\x03\x03\x00\x10AAAAAAAAAAAAAAAA", "\x14\x03\x03\x00\x01\x01", "\x16\x03\x01\x00\x00\x16\x03\x01\x00\x00\x16\x03\x01\x00\x00",
+	"\x16\x00\x00\x00\x04AAAA", "\x16\x03\x01\x00\x04\x01\xff\xff\xff", "\x00", "\xff\xff\xff\xff\xff\xff", ""}
+
+func genC09Junk(rt *rapid.T) c09Junk {
+	j := c09Junk{Hello: rapid.IntRange(0, 2).Draw(rt, "hello") == 0}
+	switch rapid.IntRange(0, 3).Draw(rt, "junkcls") {
+	case 0:
+		j.Bytes = rapid.SliceOfN(rapid.Byte(), 1, 48).Draw(rt, "random")
+	case 1:
+		// a record header of drawn type, version and length, followed by fewer or more bytes
+		hdr := []byte{rapid.SampledFrom([]byte{0x14, 0x15, 0x16, 0x17, 0x18, 0x80, 0x00}).Draw(rt, "rtype"), rapid.SampledFrom([]byte{0x03, 0x02, 0x00, 0xff}).Draw(rt, "vmaj"), rapid.SampledFrom([]byte{0x00, 0x01, 0x03, 0x04, 0xff}).Draw(rt, "vmin"),
+			rapid.SampledFrom([]byte{0x00, 0x01, 0x40, 0x48, 0xff}).Draw(rt, "lenhi"), rapid.SampledFrom([]byte{0x00, 0x01, 0x05, 0xff}).Draw(rt, "lenlo")}
+		j.Bytes = append(hdr, rapid.SliceOfN(rapid.Byte(), 0, 24).Draw(rt, "body")...)
+	default:
+		j.Bytes = []byte(rapid.SampledFrom(c09JunkFixed).Draw(rt, "fixed"))
+	}
+	return j
+}
+
+func init() {
+	register("c09.scenario", evalC09)
+	register("c09.child", evalC09Child)
+}
 
 func TestC09(t *testing.T) {
 	h := newHarness(t, "C09", "the finite product, enumerated completely: server configuration {CA only, CA + common-name rule, rule + password} x client credential {no certificate, plain-text bytes on the TLS port, self-signed, leaf of a foreign CA, expired leaf, "+
 		"right CA wrong name, right name only on an intermediate CA, right CA right name} x handshake fault {complete, abort after ClientHello, stall (held open), garbage record} x order {faulty client first, well-behaved client first} = 192 scenarios on real loopback TCP/TLS "+
-		"with certificates generated at run time; thorough adds bursts of 2..5 faulty clients and shuffled orders. Oracle: handler calls attributed to client identities by unique keys may only stem from clients whose chain verifies and - with a rule - whose LEAF carries the name "+
+		"with certificates generated at run time; a rejected client comes back a second time with a TLS session cache; bursts of 40 failing handshakes on one running server; thorough adds bursts of 2..5 faulty clients and shuffled orders. "+
+		"CHILD tier: the example server as a process of its own with a TLS listener; faulty clients send generated junk (random bytes, record headers of every type/version/length, SSLv2-style first bytes, oversized records, plain RESP/HTTP) as first bytes or after a well-formed ClientHello; after each the process must be alive and serve a valid TLS and a plain client. Oracle: handler calls attributed to client identities by unique keys may only stem from clients whose chain verifies and - with a rule - whose LEAF carries the name "+
 		"(and that have sent AUTH where a password is set); rejected clients are disconnected; after each faulty client and while a staller is connected a valid TLS client handshakes and is served and a plain client gets a reply. "+
 		"Non-trivial: every scenario with a non-accepted credential or a fault other than complete. Distinct = distinct scenario tuple.")
 	defer h.Finish()
@@ -357,6 +532,38 @@ product:
 		}
 	}
 	h.Col.Exhaustive("config x credential x fault x order (192 scenarios)", complete)
+
+	// many failed handshakes on ONE running server, a well-behaved client after each
+	long := []c09Case{{Config: "rule", Cred: "none", Fault: "complete", Order: "faulty-first", Repeat: 40}, {Config: "ca", Cred: "foreign", Fault: "complete", Order: "valid-first", Repeat: 40},
+		{Config: "ca", Cred: "plaintext", Fault: "garbage", Order: "faulty-first", Repeat: 40}, {Config: "rule+password", Cred: "right", Fault: "abort", Order: "faulty-first", Repeat: 40}}
+	for i, c := range long {
+		if i%h.NShards != h.Shard {
+			continue
+		}
+		h.Col.Case(true, []byte(c.String()), "long-burst")
+		h.Report("c09.scenario", c, evalC09(c))
+	}
+
+	// broken handshakes of every shape against a server process of its own (a panic there is a process death)
+	if h.Shard == 0 {
+		var all []c09Junk
+		for _, hello := range []bool{false, true} {
+			for _, b := range c09JunkFixed {
+				all = append(all, c09Junk{Hello: hello, Bytes: []byte(b)})
+			}
+		}
+		c := c09Child{Rule: true, Junk: all}
+		h.Col.Case(true, []byte(fmt.Sprint("child-fixed", len(all))), "child-process")
+		h.Report("c09.child", c, evalC09Child(c))
+	}
+	h.Rapid("child", h.N(24, 3000)/h.NShards+1, func(rt *rapid.T) {
+		c := c09Child{Rule: rapid.Bool().Draw(rt, "rule")}
+		for i, n := 0, rapid.IntRange(1, 6).Draw(rt, "njunk"); i < n; i++ {
+			c.Junk = append(c.Junk, genC09Junk(rt))
+		}
+		h.Col.Case(true, []byte(fmt.Sprint(c)), "child-process")
+		h.Fail(rt, "c09.child", c, evalC09Child(c))
+	})
 
 	if h.Thorough() {
 		h.Rapid("bursts", h.N(0, 6000)/h.NShards+1, func(rt *rapid.T) {
